@@ -4,13 +4,13 @@ from .common import SPEC, run, NCPU, log
 
 JAVA_CP = "/opt/veriftools/tla/tla2tools.jar:/opt/veriftools/tla/CommunityModules-deps.jar"
 
-def run_tlc(module, cfg, wd, env=None, workers=None, timeout=900, extra=(), heap="8g", dfs_queue=False, simulate=None):
+def run_tlc(module, cfg, wd, env=None, workers=None, timeout=900, extra=(), heap="8g", dfs_queue=False, simulate=None, lib=None):
     """Returns dict: ok (no error found), rc, generated, distinct, depth, json (decoded PrintT JSON lines),
     out (raw text), violated (name of violated invariant/property or None), error (text for infra errors)."""
     meta = os.path.join(wd, "meta_" + os.path.splitext(os.path.basename(cfg))[0])
     shutil.rmtree(meta, ignore_errors=True)
     os.makedirs(meta, exist_ok=True)
-    jopts = ["-XX:+UseParallelGC", "-Xmx" + heap, "-DTLA-Library=" + SPEC]
+    jopts = ["-XX:+UseParallelGC", "-Xmx" + heap, "-DTLA-Library=" + SPEC + (os.pathsep + lib if lib else "")]
     if dfs_queue:
         jopts.append("-Dtlc2.tool.queue.IStateQueue=StateDeque")
     cmd = ["java"] + jopts + ["-cp", JAVA_CP, "tlc2.TLC", "-workers", str(workers or NCPU), "-metadir", meta,
@@ -43,7 +43,7 @@ def run_tlc(module, cfg, wd, env=None, workers=None, timeout=900, extra=(), heap
             or re.search(r"Action property (\S+) is violated", out) or re.search(r"Deadlock reached", out)
         if m:
             res["violated"] = m.group(1) if m.groups() else m.group(0)
-        elif "The postcondition" in out and "violated" in out or "POSTCONDITION" in out and "violated" in out:
+        elif re.search(r"Postcondition \S+ .* is false", out) or "The postcondition" in out and "violated" in out:
             res["violated"] = "POSTCONDITION"
         else:
             res["error"] = "TLC failed: " + (out[-1500:] + err[-500:])
